@@ -159,7 +159,7 @@ def build(case, rd):
 
 
 # ---- the real filters ------------------------------------------------------------------------------------------
-KEY_UNIVERSE = ["x", "y", "c", "d", "action", "kind", "size"] + [a + "_" + str(i) for a in ("x", "y", "c", "d", "kind", "size", "action") for i in range(4)] + [str(i) for i in range(48)]
+KEY_UNIVERSE = ["x", "y", "z", "c", "d", "action", "kind", "size"] + [a + "_" + str(i) for a in ("x", "y", "z", "c", "d", "kind", "size", "action") for i in range(4)] + [str(i) for i in range(48)]
 HASH_FEATS = next(m for m in range(1024, 10 ** 6) if len({zlib.crc32(k.encode("ascii")) % m for k in KEY_UNIVERSE}) == len(KEY_UNIVERSE))
 LOOKUP_FEATS = 64
 
@@ -224,6 +224,20 @@ def index_of(acts, action):
     except Exception as e: return "<%s>" % type(e).__name__
 
 
+def equality_defect(acts):
+    """None when the action objects are pairwise different under their own == (both ways round), equal to themselves and
+    found at their own position by list.index; else what is wrong"""
+    try:
+        for i, a in enumerate(acts):
+            if not (a == a): return "action %d is not equal to itself" % (i + 1)
+            if acts.index(a) != i: return "list.index finds action %d at position %d" % (i + 1, acts.index(a) + 1)
+            for j in range(i + 1, len(acts)):
+                if a == acts[j] or acts[j] == a: return "actions %d and %d compare equal (%s)" % (i + 1, j + 1, "both ways" if (a == acts[j] and acts[j] == a) else "one way only")
+    except Exception as e:
+        return "comparing the actions raises %s" % type(e).__name__
+    return None
+
+
 def observe(out):
     """-> (layout, {n: observation}) ; layout = [[ids of one output item]..], batched flags"""
     layout = []; flags = []; obs = {}
@@ -235,7 +249,7 @@ def observe(out):
         for j, n in enumerate(ids):
             get = (lambda k, j=j, o=o: o[k][j]) if isb else (lambda k, o=o: o[k])
             acts = list(get("actions"))
-            ob = {"rewards": vector(get("rewards"), acts)}
+            ob = {"rewards": vector(get("rewards"), acts), "distinct-actions": equality_defect(acts)}
             if "feedbacks" in o: ob["feedbacks"] = vector(get("feedbacks"), acts)
             if "action" in o:
                 ob["logged-action"] = index_of(acts, get("action"))
@@ -273,6 +287,8 @@ def compare(case, out, groups, batched):
         return [("interactions", "output items hold interactions %r (batched %r), expected %r (batched %r)" % (layout, flags, groups, batched))]
     for n in sorted(obs):
         ob = obs[n]
+        if case["injective"] and ob["distinct-actions"]:
+            bad.append(("distinct-actions", "interaction %d: %s; they were %d different actions" % (n, ob["distinct-actions"], len(case["expR"][n - 1]))))
         want = {"rewards": [num(p) for p in case["expR"][n - 1]]}
         if case["F"][n - 1]["k"] != "none": want["feedbacks"] = [num(p) for p in case["expF"][n - 1]]
         for key, w in want.items():
@@ -444,14 +460,14 @@ def replay(case, rd, others=()):
 
 
 # ---- TLC chunks ------------------------------------------------------------------------------------------------
-ALL_SHAPES = ("scalar", "string", "cat", "dense", "densecat", "nested", "sparse", "sparsecat", "sparsecatk", "sparsenest", "sparsepart")
+ALL_SHAPES = ("scalar", "string", "cat", "dense", "densecat", "nested", "sparse", "sparsecat", "sparsecatk", "sparsenest", "sparsepart", "sparsezero")
 
 
 def chunks(ctx):
     """(name, MaxLen, levels, shapes, flavours, envs, check Idempotent)"""
     if ctx.quick:
         return [("len1", 1, ("full", "off", "off"), ALL_SHAPES, ("igl", "logged"), ("diff", "rev"), True),
-                ("len2", 2, ("tiny", "tiny", "off"), ("scalar", "cat", "densecat", "nested", "sparsecat", "sparsepart"), ("iglmix", "logged"), ("same", "rev"), False)]
+                ("len2", 2, ("tiny", "tiny", "off"), ("scalar", "cat", "densecat", "nested", "sparsecat", "sparsepart", "sparsezero"), ("iglmix", "logged"), ("same", "rev"), False)]
     return [("len1", 1, ("full", "off", "off"), ALL_SHAPES, ("sim", "igl", "iglmix", "logged"), ("one", "same", "diff", "samediff", "rev"), True),
             ("len2", 2, ("lite", "lite", "off"), ALL_SHAPES, ("igl", "iglmix", "logged"), ("same", "diff", "rev"), False),
             ("len3", 3, ("tiny", "tiny", "tiny"), ALL_SHAPES, ("iglmix", "logged"), ("diff", "rev"), False)]
@@ -463,7 +479,7 @@ def tla_set(xs): return "{" + ", ".join('"%s"' % x for x in xs) + "}"
 def run_chunk(ctx, name, maxlen, levels, shapes, flavours, envs, idem):
     sub = {"MaxLen = 1": "MaxLen = %d" % maxlen, 'Level1 = "full"': 'Level1 = "%s"' % levels[0], 'Level2 = "off"': 'Level2 = "%s"' % levels[1],
            'Level3 = "off"': 'Level3 = "%s"' % levels[2],
-           'Shapes = {"scalar", "string", "cat", "dense", "densecat", "nested", "sparse", "sparsecat", "sparsecatk", "sparsenest", "sparsepart"}': "Shapes = " + tla_set(shapes),
+           'Shapes = {"scalar", "string", "cat", "dense", "densecat", "nested", "sparse", "sparsecat", "sparsecatk", "sparsenest", "sparsepart", "sparsezero"}': "Shapes = " + tla_set(shapes),
            'Flavours = {"sim", "igl", "iglmix", "logged"}': "Flavours = " + tla_set(flavours),
            'Envs = {"one", "same", "diff"}': "Envs = " + tla_set(envs)}
     if not idem: sub["INVARIANT Idempotent"] = ""
